@@ -1,4 +1,439 @@
 package govc
 
-func CheckMain(args []string) int  { return 2 }
-func ReplayMain(args []string) int { return 2 }
+import (
+	"encoding/json"
+	"fmt"
+	"os"
+	"path/filepath"
+	"regexp"
+	"sort"
+	"strconv"
+	"strings"
+	"time"
+)
+
+const VerifDir = "/verif"
+
+type Claims struct {
+	Property   string   `json:"property"`
+	Packages   []string `json:"packages"`
+	Functions  []string `json:"functions"`
+	Lemmas     []string `json:"lemmas"`
+	LemmaPkg   string   `json:"lemma_pkg"`
+	Unclaimed  []struct {
+		Pattern string `json:"pattern"`
+		Reason  string `json:"reason"`
+	} `json:"unclaimed"`
+	Structural      []string `json:"structural"` // names of structural checks (callers / stores / single-site)
+	NotDecided      []string `json:"not_decided_clauses"`
+	Assumptions     []string `json:"assumptions"`
+	MetaArguments   []string `json:"meta_arguments"`
+	Unverified      []string `json:"unverified_functions"`
+	Bounded         []string `json:"bounded"`
+	MinObligations  int      `json:"min_obligations"`
+	SafetyOff       []string `json:"safety_off"` // functions verified without O4 safety obligations
+	MaxInline       int      `json:"max_inline"`
+}
+
+type KnownFinding struct {
+	Property   string `json:"property"`
+	Status     string `json:"status"` // finding | fixed
+	Obligation string `json:"obligation"` // regexp on obligation name
+	What       string `json:"what"`
+	Commit     string `json:"commit,omitempty"`
+	Witness    string `json:"witness,omitempty"` // description of the failing input class
+}
+
+type obRecord struct {
+	Name    string  `json:"name"`
+	Kind    string  `json:"kind"`
+	Func    string  `json:"function"`
+	Clause  string  `json:"clause,omitempty"`
+	Result  string  `json:"result"`
+	By      string  `json:"decided_by"`
+	Seconds float64 `json:"seconds"`
+	Hyps    int     `json:"hypotheses"`
+	Where   string  `json:"where,omitempty"`
+}
+
+type ReplayFile struct {
+	Property   string            `json:"property"`
+	Obligation string            `json:"obligation"`
+	Kind       string            `json:"kind"`
+	Function   string            `json:"function"`
+	Clause     string            `json:"clause"`
+	Where      string            `json:"where"`
+	Verdict    string            `json:"verdict"`
+	Solvers    []SolverRun       `json:"solver_runs"`
+	Model      map[string]string `json:"model,omitempty"`
+	SMTFile    string            `json:"smt_file,omitempty"`
+	Reproduced bool              `json:"reproduced_on_real_code"`
+	ReplayLog  string            `json:"replay_log,omitempty"`
+	ReplayTest string            `json:"replay_test,omitempty"`
+	Note       string            `json:"note,omitempty"`
+}
+
+func readJSON(path string, v any) error {
+	b, err := os.ReadFile(path)
+	if err != nil {
+		return err
+	}
+	return json.Unmarshal(b, v)
+}
+
+func writeJSON(path string, v any) error {
+	b, err := json.MarshalIndent(v, "", " ")
+	if err != nil {
+		return err
+	}
+	os.MkdirAll(filepath.Dir(path), 0o755)
+	return os.WriteFile(path, append(b, '\n'), 0o644)
+}
+
+// CheckMain: govc check <Cxx> quick|thorough [-repo /repo]
+func CheckMain(args []string) int {
+	if len(args) < 2 {
+		fmt.Println("usage: govc check <property> quick|thorough")
+		return 2
+	}
+	prop, tier := args[0], args[1]
+	repo := "/repo"
+	for i := 2; i+1 < len(args); i++ {
+		if args[i] == "-repo" {
+			repo = args[i+1]
+		}
+	}
+	defer CleanupScratch()
+	t0 := time.Now()
+	seed := 0
+	if s := os.Getenv("VERIF_SEED"); s != "" {
+		seed, _ = strconv.Atoi(s)
+	}
+	var cl Claims
+	if err := readJSON(filepath.Join(VerifDir, "claims", prop+".json"), &cl); err != nil {
+		fmt.Println("cannot read claims:", err)
+		return 2
+	}
+	var known []KnownFinding
+	readJSON(filepath.Join(VerifDir, "known_findings.json"), &known)
+
+	replayDir := filepath.Join(VerifDir, "replays", prop)
+	os.RemoveAll(replayDir)
+
+	type viol struct {
+		name, path string
+		noInput    bool
+	}
+	var viols []viol
+	var knownLines []string
+	report := func(rf *ReplayFile) {
+		// known findings
+		for _, k := range known {
+			if k.Property != prop || k.Status != "finding" {
+				continue
+			}
+			if re, err := regexp.Compile(k.Obligation); err == nil && re.MatchString(rf.Obligation) {
+				knownLines = append(knownLines, fmt.Sprintf("KNOWN-FINDING: property=%s %s (%s)", prop, k.What, rf.Obligation))
+				return
+			}
+		}
+		p := filepath.Join(replayDir, mangle(rf.Obligation)+".json")
+		rf.Property = prop
+		writeJSON(p, rf)
+		viols = append(viols, viol{rf.Obligation, p, !rf.Reproduced})
+	}
+
+	w, err := Load(repo, cl.Packages...)
+	var results []*FuncResult
+	var structural []StructResult
+	if err != nil {
+		report(&ReplayFile{Obligation: prop + "#load", Kind: "load", Verdict: "undecided", Note: "the tree does not load/type-check: " + err.Error()})
+	} else {
+		paths := []string{repo, filepath.Join(VerifDir, "spec")}
+		if err := w.ReadContracts(paths...); err != nil {
+			fmt.Println("contract error:", err)
+			return 2
+		}
+		safetyOff := map[string]bool{}
+		for _, f := range cl.SafetyOff {
+			safetyOff[f] = true
+		}
+		for _, k := range cl.Functions {
+			results = append(results, VerifyFunc(w, k, VerifyOpts{Safety: !safetyOff[k], MaxInl: cl.MaxInline}))
+		}
+		for _, ln := range cl.Lemmas {
+			found := false
+			for _, lm := range w.Globals.Lemmas {
+				if lm.Name == ln {
+					found = true
+					results = append(results, VerifyLemma(w, lm, cl.LemmaPkg))
+				}
+			}
+			if !found {
+				results = append(results, &FuncResult{Key: "lemma:" + ln, Err: "lemma not found in contract files"})
+			}
+		}
+		for _, s := range cl.Structural {
+			structural = append(structural, RunStructural(w, s))
+		}
+		opts := RunOpts{TimeoutS: 10, Seed: seed, Retry: true, Par: 8}
+		if tier == "thorough" {
+			opts.All = true
+			opts.TimeoutS = 30
+		}
+		RunObligations(results, opts)
+	}
+
+	var unclaimed []*regexp.Regexp
+	for _, u := range cl.Unclaimed {
+		unclaimed = append(unclaimed, regexp.MustCompile(u.Pattern))
+	}
+	isUnclaimed := func(n string) bool {
+		for _, re := range unclaimed {
+			if re.MatchString(n) {
+				return true
+			}
+		}
+		return false
+	}
+
+	var recs []obRecord
+	var unclaimedRecs []obRecord
+	nObl, nDis := 0, 0
+	solverTime := 0.0
+	byBackend := map[string]int{}
+	funcs := []map[string]any{}
+	assumedUse := map[string]int{}
+	unmodelled := map[string]int{}
+	inlined := map[string]int{}
+	var notes []string
+	var samples []any
+	vacuity := 0
+	for _, r := range results {
+		if r.Err != "" {
+			report(&ReplayFile{Obligation: r.Key + "#generate", Kind: "generate", Function: r.Key, Verdict: "undecided",
+				Note: "obligations could not be generated from the current source: " + r.Err})
+			nObl++
+			recs = append(recs, obRecord{Name: r.Key + "#generate", Kind: "generate", Func: r.Key, Result: "undecided"})
+			continue
+		}
+		arith := r.Arith
+		if arith == "" {
+			arith = "bv"
+		}
+		funcs = append(funcs, map[string]any{"function": r.Key, "arith": arith, "obligations": len(r.Ctx.Obls), "contract_file": strings.TrimPrefix(r.File, repo+"/"), "gen_seconds": round(r.GenSecs)})
+		for k, n := range r.Ctx.AssumedUse {
+			assumedUse[k] += n
+		}
+		for k, n := range r.Ctx.Unmodelled {
+			unmodelled[k] += n
+		}
+		for k, n := range r.Ctx.Inlined {
+			inlined[k] += n
+		}
+		notes = append(notes, r.Ctx.Notes...)
+		for _, o := range r.Ctx.Obls {
+			rec := obRecord{Name: o.Name, Kind: o.Kind, Func: o.Func, Clause: o.Clause, Result: o.Result, By: o.By, Seconds: round(o.Seconds), Hyps: o.cut,
+				Where: fmt.Sprintf("%s:%d", strings.TrimPrefix(o.Pos.Filename, repo+"/"), o.Pos.Line)}
+			solverTime += o.Seconds
+			if isUnclaimed(o.Name) {
+				unclaimedRecs = append(unclaimedRecs, rec)
+				continue
+			}
+			if o.Kind == "vacuity" {
+				vacuity++
+				if o.Result == "vacuous" {
+					fmt.Printf("ENGINE-ERROR: contradictory preconditions in %s\n", o.Func)
+					report(&ReplayFile{Obligation: o.Name, Kind: o.Kind, Function: o.Func, Clause: o.Clause, Verdict: "vacuous", Solvers: o.Runs, Note: "preconditions are contradictory: nothing would be proved"})
+				}
+				continue
+			}
+			nObl++
+			recs = append(recs, rec)
+			if o.Result == "unsat" {
+				nDis++
+				byBackend[o.By]++
+				if len(samples) < 3 && (o.Kind == "post" || o.Kind == "lemma" || o.Kind == "inv-pres") {
+					samples = append(samples, map[string]any{"obligation": o.Name, "kind": o.Kind, "clause": o.Clause, "decided_by": o.By, "seconds": round(o.Seconds), "smt_bytes": len(r.Ctx.Query(o))})
+				}
+				continue
+			}
+			// failed
+			rf := &ReplayFile{Obligation: o.Name, Kind: o.Kind, Function: o.Func, Clause: o.Clause, Where: rec.Where, Verdict: o.Result, Solvers: trimRuns(o.Runs), Model: o.Model}
+			if o.File != "" {
+				dst := filepath.Join(replayDir, mangle(o.Name)+".smt2")
+				os.MkdirAll(replayDir, 0o755)
+				if b, err := os.ReadFile(o.File); err == nil {
+					os.WriteFile(dst, b, 0o644)
+					rf.SMTFile = dst
+				}
+			}
+			if o.Result == "sat" && len(o.Model) > 0 {
+				TryReplay(repo, rf)
+			}
+			report(rf)
+		}
+	}
+	for _, s := range structural {
+		nObl++
+		rec := obRecord{Name: s.Name, Kind: "structural", Result: "unsat", By: "ssa-enumeration", Clause: s.What}
+		if !s.OK {
+			rec.Result = "violated"
+			report(&ReplayFile{Obligation: s.Name, Kind: "structural", Clause: s.What, Verdict: "violated", Note: s.Detail})
+		} else {
+			nDis++
+			byBackend["ssa-enumeration"]++
+		}
+		recs = append(recs, rec)
+	}
+	if nObl < cl.MinObligations {
+		report(&ReplayFile{Obligation: prop + "#obligation-count", Kind: "vacuity", Verdict: "undecided", Note: fmt.Sprintf("only %d obligations generated, expected at least %d", nObl, cl.MinObligations)})
+	}
+	if len(samples) == 0 && len(recs) > 0 {
+		samples = append(samples, recs[0])
+	}
+
+	// evidence
+	trusted := []string{
+		"go/packages + go/types + go/ssa (x/tools v0.29.0) represent the program that go build compiles (linux/amd64)",
+		"the VC generator /verif/govc (checked by the must-fail self-test corpus and vacuity obligations)",
+		"SMT solvers: an 'unsat' from z3 5.1.0, z3 4.8.12 or cvc5 1.0.3",
+	}
+	var assumedList []string
+	for k, n := range assumedUse {
+		assumedList = append(assumedList, fmt.Sprintf("assumed (trusted) contract of %s, used at %d call sites", k, n))
+	}
+	sort.Strings(assumedList)
+	var unmodelledList []string
+	for k, n := range unmodelled {
+		unmodelledList = append(unmodelledList, fmt.Sprintf("%s (x%d): no contract; result unconstrained, assumed not to touch module state", k, n))
+	}
+	sort.Strings(unmodelledList)
+	var inlinedList []string
+	for k, n := range inlined {
+		inlinedList = append(inlinedList, fmt.Sprintf("%s (x%d)", k, n))
+	}
+	sort.Strings(inlinedList)
+	assumptions := append([]string{}, cl.Assumptions...)
+	assumptions = append(assumptions, assumedList...)
+	assumptions = append(assumptions, "machine arithmetic: bit-vectors of the real width (arith bv) unless a function is listed with arith int, where every + - * and conversion carries a no-overflow obligation")
+	assumptions = append(assumptions, "slices: append always yields a fresh backing array (in-place growth into spare capacity is not modelled)")
+	assumptions = append(assumptions, "functions are verified as sequential code; interference only at lock re-acquisition (meta-argument M1)")
+	for _, m := range cl.MetaArguments {
+		assumptions = append(assumptions, "meta-argument (not machine-checked): "+m)
+	}
+	ev := map[string]any{
+		"property_id": prop,
+		"tier":        tier,
+		"seed":        seed,
+		"level":       "proof",
+		"wall_s":      round(time.Since(t0).Seconds()),
+		"violations":  len(viols),
+		"assumptions": assumptions,
+		"coverage": map[string]any{
+			"obligations":              nObl,
+			"discharged":               nDis,
+			"checker_cmd":              fmt.Sprintf("/verif/check %s %s", prop, tier),
+			"trusted_base":             trusted,
+			"functions_under_contract": funcs,
+			"per_obligation":           recs,
+			"unclaimed_obligations":    unclaimedRecs,
+			"discharged_by_backend":    byBackend,
+			"solver_time_s":            round(solverTime),
+			"vacuity_checks":           vacuity,
+			"inlined_functions":        inlinedList,
+			"calls_without_contract":   unmodelledList,
+			"unverified_functions":     cl.Unverified,
+			"bounded":                  cl.Bounded,
+			"not_decided_clauses":      cl.NotDecided,
+			"engine_notes":             dedup(notes),
+			"samples":                  samples,
+			"known_findings":           knownLines,
+			"contract_files":           relFiles(w, repo),
+		},
+	}
+	if err := writeJSON(filepath.Join(VerifDir, "evidence", prop+".json"), ev); err != nil {
+		fmt.Println("cannot write evidence:", err)
+		return 2
+	}
+	for _, l := range knownLines {
+		fmt.Println(l)
+	}
+	fmt.Printf("%s %s: %d obligations, %d discharged, %d violations, %.1fs\n", prop, tier, nObl, nDis, len(viols), time.Since(t0).Seconds())
+	if len(viols) > 0 {
+		for _, v := range viols {
+			suffix := ""
+			if v.noInput {
+				suffix = " no-failing-input-found"
+			}
+			fmt.Printf("VIOLATION property=%s replay=%s%s\n", prop, v.path, suffix)
+		}
+		return 1
+	}
+	return 0
+}
+
+func relFiles(w *World, repo string) []string {
+	var out []string
+	if w == nil {
+		return out
+	}
+	for _, f := range w.Files {
+		out = append(out, f)
+	}
+	return out
+}
+
+func trimRuns(rs []SolverRun) []SolverRun {
+	var out []SolverRun
+	for _, r := range rs {
+		if len(r.Output) > 4000 {
+			r.Output = r.Output[:4000] + "..."
+		}
+		out = append(out, r)
+	}
+	return out
+}
+
+func dedup(xs []string) []string {
+	seen := map[string]bool{}
+	var out []string
+	for _, x := range xs {
+		if !seen[x] {
+			seen[x] = true
+			out = append(out, x)
+		}
+	}
+	return out
+}
+
+func round(f float64) float64 { return float64(int(f*1000+0.5)) / 1000 }
+
+func ReplayMain(args []string) int {
+	if len(args) < 1 {
+		fmt.Println("usage: govc replay <file.json>")
+		return 2
+	}
+	var rf ReplayFile
+	if err := readJSON(args[0], &rf); err != nil {
+		fmt.Println(err)
+		return 2
+	}
+	defer CleanupScratch()
+	fmt.Printf("obligation: %s\nclause: %s\nverdict: %s\n", rf.Obligation, rf.Clause, rf.Verdict)
+	for k, v := range rf.Model {
+		fmt.Printf("  %s = %s\n", k, v)
+	}
+	if len(rf.Model) == 0 {
+		fmt.Println("no model: nothing to replay (no-failing-input-found)")
+		return 1
+	}
+	TryReplay("/repo", &rf)
+	fmt.Println(rf.ReplayLog)
+	if rf.Reproduced {
+		fmt.Println("REPRODUCED on the real code")
+		return 1
+	}
+	fmt.Println("not reproduced")
+	return 0
+}
